@@ -749,4 +749,6 @@ def harvest_spec(repo):
 
 
 def contracts(repo):
-    return [issue_bundle_spec(repo), pipeline_spec(repo), harvest_spec(repo)]
+    from . import C07 as _C07
+    # a bundle is sent as the bytes Message_Router.produce makes of its members: every member encoded from its fields, located by the offset table (contract of C07)
+    return [issue_bundle_spec(repo), pipeline_spec(repo), harvest_spec(repo), _C07.produce_request_spec()]
